@@ -622,6 +622,49 @@ def readFile (b : Backend) (st : Store α) (w : World α) (vs : List VarDesc) : 
     { w' with heap := w'.heap ++ [s] }) w0
   { w1 with handles := w1.handles - 1 }
 
+/-- Everything else `cfdm.read` opens besides the parent dataset.
+`externals`: one entry per distinct external file given (`external=`), `true` when the file holds an
+external variable that is still wanted when it is scanned — which decides what is taken from it, not
+whether it is closed; `grouped`: the parent has groups, so `file_open` also creates the flattened
+in-memory dataset and its temporary file; `failAfter = some k`: the read raises after `k` variables
+(`cfdm.read` then calls `file_close` in its `finally`). -/
+structure ReadPlan where
+  externals : List Bool
+  grouped : Bool
+  failAfter : Option Nat
+  deriving DecidableEq, Repr
+
+/-- Open datasets and the datasets registered for `file_close` (`read_vars['datasets']`,
+`['nc_grouped']`, `['flat_files']`), as two counters. -/
+structure Opened where
+  opened : Nat
+  registered : Nat
+  deriving DecidableEq, Repr
+
+/-- `file_open`: the parent dataset, plus — for a grouped parent — the flattened copy and its
+temporary file; all of them are registered as soon as they exist. -/
+def openParent (grouped : Bool) : Opened :=
+  if grouped then ⟨3, 3⟩ else ⟨1, 1⟩
+
+/-- `_get_variables_from_external_files`, one external file: `self.read(external_file,
+_scan_only=True)` opens it, `datasets.append(external_read_vars["nc"])` registers it —
+unconditionally, whether or not the file turns out to hold a wanted variable. -/
+def scanExternal (o : Opened) (_useful : Bool) : Opened :=
+  ⟨o.opened + 1, o.registered + 1⟩
+
+/-- `cfdm.read` with external files / groups / a failure part-way: everything opened is counted in
+`handles` while the variables are processed; `file_close` closes what was registered. -/
+def readFilePlan (b : Backend) (st : Store α) (w : World α) (p : ReadPlan) (vs : List VarDesc) : World α :=
+  let o := p.externals.foldl scanExternal (openParent p.grouped)
+  let w0 := { w with handles := w.handles + o.opened }
+  let todo := match p.failAfter with
+    | none => vs
+    | some k => vs.take k
+  let w1 := todo.foldl (fun (w : World α) v =>
+    let (w', s) := readVar b st w v
+    { w' with heap := w'.heap ++ [s] }) w0
+  { w1 with handles := w1.handles - o.registered }
+
 /-- Roles whose variable the property allows `read` to bring into memory. -/
 def Role.exempt : Role → Bool
   | .scalarCoord => true
